@@ -55,6 +55,19 @@ CHECKS = {
             "§6 C15",
             "unbounded proofs (induction over the grammar / the locator list; round trips with primitive laws as hypotheses) + extraction + differential correspondence with fault enumeration",
             "Primitives are modelled, not verified: PBKDF2, HMAC, AES-CBC, base64, int(), UTF-8 decoding and the .vmx dictionary syntax are parameters of the model, supplied per attempt as a table computed with the real libraries (detection of an altered MACed byte is HMAC's property). Finding D26 (padding not authenticated) was repaired in /repo 8052c1c; alterations reaching only padding are ordinary in-scope attempts (truth: refused)."),
+    "C14": ("Lean 4 theorems over the metadata layer Hv/Meta.lean (built on the open/parse models of C01-C06/C10): ext_walk_roundtrip (for every list of header "
+            "extensions - any count, types, payload lengths incl. multiples of 8 - the walk of QCow2._read_extensions on the encoded area returns exactly the list; induction "
+            "over the list, with the fuel QCow2.open uses), ext_padding_spec ((len+7)&0xFFFFFFF8 = round-up-to-8 on 32-bit lengths), snapshot_table_offsets (entry i is parsed "
+            "at the 8-byte aligned offset after its predecessors; induction over nb_snapshots), snapshot_entry_layout (id / name / unknown extra data are the stored bytes at "
+            "40+extra, +id; entry_size), descriptor_kv_roundtrip (+_unquoted: key = \"value\" is split at the FIRST '=' for every key without '=' and every value, which may "
+            "contain '='), max_seq_header_chosen / max_seq_header_unique, parent_locator_dict_roundtrip; struct layouts, padding literals/operators, the string-method calls of "
+            "DiskDescriptor.parse and the comparison operator of the VHDX header choice re-extracted from the source on every run; independent writers for 8 families "
+            "(qcow2, vhdx, vmdk text/embedded, vhd, vdi, hds, Parallels XML); real objects' public attributes vs model vs construction truth",
+            "§6 C14",
+            "unbounded proof (induction over extension lists / snapshot counts / strings) + extraction + differential correspondence",
+            "Partial: the snapshot table and parent locator theorems are stated on file positions / the dictionary (byte-level halves of the round trips), the numeric fields are "
+            "Field.decode of the extracted layouts (pinned by _spec theorems, exercised by the harness). backing_format / image_backing_file are compared after the documented "
+            "upper-casing. Duplicate keys / duplicate known extension types, invalid UTF-8/UTF-16 and other spellings of int()/UUID() are outside the generated truth."),
     "C20": ("Lean 4 theorems visor_member_extracts_stored_bytes (every listed visor member with a recorded data offset extracts to file[offset, offset+size), offset = the little-endian word at header+496, for every file content / member count / order / placement, GNU long names included), visor_next_header_adjacent, plain_tar_unchanged (visor-aware listing = standard listing on archives without visor data offsets; induction over the iteration), vmtar_listing_terminates (fuel size/512+2 always suffices) over a model of VisorTarInfo.frombuf/_proc_member and the inherited CPython tarfile iteration (nts, nti incl. base-256, checksums, frombuf, _proc_builtin, _proc_gnulong, next, extractfile); slice positions/magic/struct formats in VisorTarInfo.frombuf re-extracted from the source on every run; independent archive writer; real code vs model vs construction truth (and vs tarfile.open for plain archives)",
             "§6 C20",
             "unbounded proof (induction over the member iteration) + extraction + differential correspondence",
